@@ -134,6 +134,12 @@ def run_config(cfg, res):
         RuleManager.read_task.stop()
     router = cls(settings)
     dests = [tuple(d) for d in cell['dests']]
+    # a relay whose destinations are not up yet (DYNAMIC_ROUTER) routes with an empty set: min(RF, 0) = 0 destinations
+    empty_target = router.hash_router if aggregated else router
+    for key in ('a.b.c', 'x', table[7]):
+      check_key(res, empty_target, key, dict(cell, dests=[], history=['nothing added yet']), set(), 0,
+                cfg['router'] + '/' + cfg['hash_type'] + '/empty')
+    res.count('empty_set_lookups', 3)
     for d in dests:
       router.addDestination(d)
     configured = set(dests)
@@ -202,6 +208,21 @@ def run_config(cfg, res):
         res.count('membership_change_sweeps')
         if bad:
           break
+      else:
+        # every destination marked down, then one comes back
+        for d in list(live):
+          router.removeDestination(d)
+        steps.append(['remove-all'])
+        for key in table[3::4096]:
+          check_key(res, target, key, dict(cell, dests=[], history=steps), set(), 0,
+                    cfg['router'] + '/' + cfg['hash_type'] + '/all-removed')
+        back = r.choice(dests)
+        router.addDestination(back)
+        steps.append(['add', list(back)])
+        for key in table[5::4096]:
+          check_key(res, target, key, dict(cell, dests=[list(back)], history=steps), {back}, 1,
+                    cfg['router'] + '/' + cfg['hash_type'] + '/one-back')
+        res.count('empty_set_lookups', 16)
     res.maxc('max_positions_covered_in_a_cell', len(positions))
     if len(positions) < 65536 and ok:
       res.inconc('only %d/65536 ring positions covered by the key table (hash function differs from the reference?)'
